@@ -1,3 +1,327 @@
-/- Model for C12: not written yet -/
+import HapVerif.Model.C05
+/-!
+M-Store with faults: model of one whole `instance.HAProxyUpdate` (pkg/haproxy/instance.go) with a
+fault at each numbered point, of `instance.Reload`, and of the two retry paths
+(`IngressReconciler.Reconcile` requeues itself after an error: the retry is one more
+`HAProxyUpdate` with whatever batch accumulated, possibly none; `Services.reloadHAProxy` puts the
+reload-queue item back after a failed `Reload`).  Core-only.  Built on the C05 model (backends,
+shards, files, hosts, frontend maps guard); nothing of C05 is redefined.
+
+Program order of `HAProxyUpdate` (every `return` runs the deferred `config.Commit()`):
+
+    Shrink                                  hosts + backends
+    1 WriteTCPServicesMaps                  guard `tcpservices.Changed()`
+    2 WriteFrontendMaps                     guard `Maps != nil && !hosts.Changed() && !rootRedirectBackendChanged()`
+    3 WriteBackendMaps                      guard `backends.Changed()`, one file set per ItemsAdd backend that needs ACLs
+    4 writeCrtLists                         every tcp port with TLS, no guard
+    5 dynUpdater.update                     runtime commands on the admin socket (Send k = 0,1,..)
+    6 writeConfig                           gate `!updated || cmdCnt > 0 || Backends().Changed()`:
+                                            haproxy.cfg, then ChangedShards() ascending
+    7 updated ⇒ return nil
+    8 ReloadQueue.Add (queue mode) or Reload (direct mode): reload command, then its result
+
+What HAProxy holds (`run`) next to what the files hold: `run := load files` at a successful
+reload; a successful runtime command rewrites the address of one running server.
+
+Abstractions.  Backend content `cfg = 4 * conf + epv`: `conf` = everything but the endpoints,
+`epv` = the address of the single real endpoint, `slots` = empty endpoints (C05).  A pair
+(deleted d, added a) left by `Shrink` is handled by `checkBackendPair`: more slots than before ⇒
+no command, reload; otherwise one Send for the real endpoint when its address changed plus one
+Send per empty slot of `a`, and the added object inherits the old slots (`len = len(d)`); the
+pair is "updated" iff `conf` is unchanged and every Send was answered well.  Hosts: C05 `HStore`
+(content abstract).  One tcp service (content `want`, 0 = none) rendered into its sni map, its
+crt-list and its `listen` section of haproxy.cfg.  Backend maps: one file set per backend whose
+`conf` needs ACLs (`needACL`), holding `conf`.  haproxy.cfg also holds whether any host exists
+(`mainHosts`: the frontend references the host maps only then).
+-/
 namespace HapVerif.C12
+open HapVerif.C05
+
+variable {p : Nat}
+
+def conf (c : Content) : Nat := c.cfg / 4
+def epv (c : Content) : Nat := c.cfg % 4
+/-- `set server b/srv addr <new>`: the running server keeps what was loaded but the address -/
+def setEpv (c : Content) (e : Nat) : Content := { c with cfg := 4 * (c.cfg / 4) + e % 4 }
+
+/-- fault points of one `HAProxyUpdate` / `Reload`, in program order -/
+inductive Fault where
+  | none
+  | tcpMaps                  -- 1  a tcp sni map cannot be written
+  | frontMaps                -- 2  the first file of WriteFrontendMaps (_front_bind_crt.list)
+  | backMaps                 -- 3  the first backend map file
+  | crtLists                 -- 4  the tcp crt-list
+  | admin (bad : List Nat)   -- 5  these Sends of the update fail (socket error or bad answer)
+  | mainCfg                  -- 6a haproxy.cfg
+  | shard (k : Nat)          -- 6b haproxy5-backend<k>.cfg
+  | reloadSend               -- 8a the reload command fails
+  | reloadResult             -- 8b the reload is accepted, the new worker fails
+deriving DecidableEq, Repr
+
+def Fault.bad : Fault → Nat → Bool
+  | .admin l, i => l.contains i
+  | _, _ => false
+
+def Fault.isReload : Fault → Bool
+  | .reloadSend => true
+  | .reloadResult => true
+  | _ => false
+
+/-- the tcp service and its three renderings -/
+structure Tcp where
+  want : Nat := 0
+  changed : Bool := false      -- `TCPServices.changed`
+  map : Nat := 0               -- _tcp_sni_<port>__*.map
+  crt : Nat := 0               -- crtlist_tcp_<port>.list
+  main : Nat := 0              -- frontend _front_tcp_<port> in haproxy.cfg
+deriving DecidableEq, Repr
+
+/-- everything HAProxy reads at (re)load -/
+structure Files (p : Nat) where
+  back : Fin p → Option Content := fun _ => none
+  maps : Fin p → Option (Nat × Bool) := fun _ => none
+  bm : Fin p → Option Nat := fun _ => none
+  tcpMap : Nat := 0
+  tcpCrt : Nat := 0
+  tcpMain : Nat := 0
+
+structure Opt where
+  queue : Bool := false                      -- `InstanceOptions.ReloadQueue != nil` (--reload-interval > 0)
+  needACL : Nat → Bool := fun _ => false     -- `Backend.NeedACL()` as a function of `conf`
+
+structure FW (p : Nat) where
+  g : GWorld p := {}                         -- backends, haproxy.cfg / shard files, hasCommittedData
+  h : HStore p := {}                         -- hosts, frontend maps, frontend.Maps == nil
+  tcp : Tcp := {}
+  bm : Fin p → Option Nat := fun _ => none   -- backend map files
+  mainHosts : Bool := false                  -- haproxy.cfg references the host maps
+  run : Files p := {}                        -- what the running HAProxy holds
+  pending : Bool := false                    -- the reload queue holds an item
+
+/-- what `haproxy -f <dir>` reads now -/
+def load (sh : Sh p) (w : FW p) : Files p :=
+  { back := fun x => w.g.w.disk (sh.shardOf x) x
+    maps := fun x => if w.mainHosts then w.h.maps x else none
+    bm := w.bm, tcpMap := w.tcp.map, tcpCrt := w.tcp.crt, tcpMain := w.tcp.main }
+
+/-! ### the pieces of C05's `HStore.updateWith true`, separated so that a fault fits in between -/
+
+def hSkip (s : HStore p) : Bool := !s.mapsNil && !s.isChanged && !s.rootBackendChanged
+def hWrite (s : HStore p) : HStore p := if hSkip s then s else { s with maps := s.want, mapsNil := false }
+def hCommit (s : HStore p) : HStore p := { s with add := fun _ => none, del := fun _ => none, bcC := s.bc }
+
+/-! ### dynamic update (stage 5) -/
+
+/-- the (deleted, added) pair of `x` that `checkBackendPair` works on: same name on both sides and
+not more endpoints than before -/
+def pair? (s : Store p) (x : Fin p) : Option (Content × Content) :=
+  match s.del x, s.add x with
+  | some d, some a => if a.slots ≤ d.slots then some (d, a) else none
+  | _, _ => none
+
+/-- number of Sends for `x` -/
+def nsend (s : Store p) (x : Fin p) : Nat :=
+  match pair? s x with
+  | some (d, a) => (if epv a ≠ epv d then 1 else 0) + a.slots
+  | none => 0
+
+def sumBelow (f : Fin p → Nat) : (i : Nat) → i ≤ p → Nat
+  | 0, _ => 0
+  | i + 1, h => sumBelow f i (Nat.le_of_succ_le h) + f ⟨i, h⟩
+
+/-- index of the first Send of `x` (pairs are visited by name here; Go visits them in map order,
+the harness only uses fault indexes whose outcome does not depend on it) -/
+def base (s : Store p) (x : Fin p) : Nat := sumBelow (nsend s) x.val (Nat.le_of_lt x.isLt)
+def totalSends (s : Store p) : Nat := sumBelow (nsend s) p (Nat.le_refl p)
+
+def anyRange (f : Nat → Bool) (lo : Nat) : Nat → Bool
+  | 0 => false
+  | n + 1 => f (lo + n) || anyRange f lo n
+
+/-- `checkBackendPair` answers true -/
+def pairOK (s : Store p) (bad : Nat → Bool) (x : Fin p) : Bool :=
+  match s.add x with
+  | none => true                                   -- removed backends are not looked at
+  | some _ =>
+    match pair? s x with
+    | none => false                                -- added backend, or more endpoints than slots
+    | some (d, a) => conf a == conf d && !anyRange bad (base s x) (nsend s x)
+
+def backendUpdated (s : Store p) (bad : Nat → Bool) : Bool := !anyFin fun x => !pairOK s bad x
+
+/-- the added object of a pair inherits the remaining empty slots of the deleted one -/
+def dynStore (sh : Sh p) (s : Store p) : Store p :=
+  let nw : Fin p → Option Content := fun x => (pair? s x).map fun da => { cfg := da.2.cfg, slots := da.1.slots }
+  { s with
+    items := fun x => match nw x with | some c => some c | none => s.items x
+    add := fun x => match nw x with | some c => some c | none => s.add x
+    shards := fun k x => match nw x with
+      | some c => if sh.n ≠ 0 ∧ k = sh.shardOf x then some c else s.shards k x
+      | none => s.shards k x }
+
+/-- the running servers after the Sends -/
+def dynRun (s : Store p) (bad : Nat → Bool) (rb : Fin p → Option Content) : Fin p → Option Content :=
+  fun x => match pair? s x with
+    | some (d, a) => if epv a ≠ epv d ∧ bad (base s x) = false then (rb x).map (setEpv · (epv a)) else rb x
+    | none => rb x
+
+/-! ### writeConfig (stage 6) -/
+
+/-- haproxy.cfg (holds the backends when there are no shards), then the changed shard files in
+ascending order up to the first one that cannot be written; `lim = none` is C05's `write` -/
+def writeCfg (sh : Sh p) (s : Store p) (d : Disk p) (lim : Option Nat) : Disk p :=
+  if sh.n = 0 then fun k => if k = 0 then s.items else d k
+  else fun k =>
+    if s.changed k && (match lim with | none => true | some f => decide (k < f)) then s.shards k else d k
+
+def hasHosts (s : HStore p) : Bool := anyFin fun x => (s.items x).isSome
+def backChanged (s : Store p) : Bool := anyFin fun x => (s.add x).isSome || (s.del x).isSome
+
+/-! ### the update -/
+
+structure Res (p : Nat) where
+  w : FW p
+  err : Bool := false
+  sends : Nat := 0
+
+/-- the deferred `config.Commit()`: backends, hosts, tcp services, `globalOld` -/
+def commitAll (w : FW p) (s : Store p) (hs : HStore p) : FW p :=
+  { w with g := { w := { store := commit s, disk := w.g.w.disk }, committed := true }
+           h := hCommit hs
+           tcp := { w.tcp with changed := false } }
+
+def setDisk (w : FW p) (d : Disk p) : FW p := { w with g := { w.g with w := { w.g.w with disk := d } } }
+
+/-- `Instance.Reload` -/
+def reload (sh : Sh p) (f : Fault) (w : FW p) : FW p × Bool :=
+  if f.isReload then (w, true) else ({ w with run := load sh w }, false)
+
+/-- one `HAProxyUpdate` with fault `f` -/
+def upd (o : Opt) (sh : Sh p) (f : Fault) (w : FW p) : Res p :=
+  let s0 := shrink sh w.g.w.store
+  let hs0 := w.h.shrink
+  -- 1
+  if w.tcp.changed && f == .tcpMaps then { w := commitAll w s0 hs0, err := true } else
+  let w1 : FW p := if w.tcp.changed then { w with tcp := { w.tcp with map := w.tcp.want } } else w
+  -- 2
+  if !hSkip hs0 && f == .frontMaps then { w := commitAll w1 s0 hs0, err := true } else
+  let hs1 := hWrite hs0
+  -- 3
+  let bchg := backChanged s0
+  let bmFiles := anyFin fun x => match s0.add x with | some c => o.needACL (conf c) | none => false
+  if bchg && bmFiles && f == .backMaps then { w := commitAll w1 s0 hs1, err := true } else
+  let w3 : FW p := if bchg then
+      { w1 with bm := fun x => match s0.add x with
+          | some c => if o.needACL (conf c) then some (conf c) else w1.bm x
+          | none => w1.bm x }
+    else w1
+  -- 4
+  if w.tcp.want != 0 && f == .crtLists then { w := commitAll w3 s0 hs1, err := true } else
+  let w4 : FW p := if w.tcp.want != 0 then { w3 with tcp := { w3.tcp with crt := w.tcp.want } } else w3
+  -- 5  `hasCommittedData() && checkConfigChange()`: without committed data no command is sent
+  let dynRuns := w.g.committed
+  let s5 := if dynRuns then dynStore sh s0 else s0
+  let sends := if dynRuns then totalSends s0 else 0
+  let w5 : FW p := if dynRuns then { w4 with run := { w4.run with back := dynRun s0 f.bad w4.run.back } } else w4
+  let updated := dynRuns && !w.tcp.changed && !hs0.isChanged && backendUpdated s0 f.bad
+  -- 6
+  let doWrite := !updated || decide (0 < sends) || bchg
+  if doWrite && f == .mainCfg then { w := commitAll w5 s5 hs1, err := true, sends := sends } else
+  let shardFails := match f with
+    | .shard k => doWrite && decide (sh.n ≠ 0) && s5.changed k
+    | _ => false
+  let lim := match f with
+    | .shard k => if shardFails then some k else none
+    | _ => none
+  let w6 : FW p := if doWrite then
+      { setDisk w5 (writeCfg sh s5 w5.g.w.disk lim) with
+        tcp := { w5.tcp with main := w.tcp.want }, mainHosts := hasHosts hs1 }
+    else w5
+  if shardFails then { w := commitAll w6 s5 hs1, err := true, sends := sends } else
+  -- 7
+  if updated then { w := commitAll w6 s5 hs1, sends := sends } else
+  -- 8
+  if o.queue then { w := commitAll { w6 with pending := true } s5 hs1, sends := sends } else
+  let r := reload sh f w6
+  { w := commitAll r.1 s5 hs1, err := r.2, sends := sends }
+
+/-- one run of the reload queue worker (`Services.reloadHAProxy`): a failed `Reload` puts the item back -/
+def qrun (sh : Sh p) (f : Fault) (w : FW p) : Res p :=
+  if !w.pending then { w := w } else
+  let r := reload sh f w
+  { w := { r.1 with pending := r.2 }, err := r.2 }
+
+/-! ### histories -/
+
+inductive Ev (p : Nat) where
+  | acq (x : Fin p) (c : Content)      -- AcquireBackend + fill when new
+  | rem (xs : List (Fin p))            -- Backends.RemoveAll
+  | hacq (x : Fin p) (c : Nat)         -- AcquireHost + fill when new
+  | hrem (xs : List (Fin p))           -- Hosts.RemoveAll
+  | tcp (v : Nat)                      -- RemoveService + AcquireTCPService with content v
+  | full                               -- config.Clear(): a full resync starts
+  | upd (f : Fault)                    -- HAProxyUpdate
+  | qrun (f : Fault)                   -- reload queue worker
+
+def setStore (w : FW p) (s : Store p) : FW p := { w with g := { w.g with w := { w.g.w with store := s } } }
+
+def step (o : Opt) (sh : Sh p) (w : FW p) : Ev p → FW p
+  | .acq x c => setStore w (acquire sh w.g.w.store x c)
+  | .rem xs => setStore w (removeAll sh w.g.w.store xs)
+  | .hacq x c => { w with h := w.h.acquire x c }
+  | .hrem xs => { w with h := w.h.removeAll xs }
+  | .tcp v => { w with tcp := { w.tcp with want := v, changed := true } }
+  | .full =>
+    { w with g := { w := { w.g.w with store := clear sh w.g.w.store }, committed := false }
+             h := w.h.clear
+             tcp := { w.tcp with want := 0, changed := false } }
+  | .upd f => (upd o sh f w).w
+  | .qrun f => (qrun sh f w).w
+
+def run (o : Opt) (sh : Sh p) (w : FW p) (evs : List (Ev p)) : FW p := evs.foldl (step o sh) w
+
+/-- caller discipline (C05): RemoveAll only for names not acquired in the running batch; Clear is
+always preceded by a commit here because every `HAProxyUpdate` commits; a tcp service, once
+declared, is declared again by every full resync before the update (content > 0) -/
+def okEv (w : FW p) : Ev p → Bool
+  | .rem xs => xs.all fun x => (w.g.w.store.add x).isNone
+  | .hrem xs => xs.all fun x => (w.h.add x).isNone
+  | .full => !backChanged w.g.w.store
+  | .tcp v => decide (v ≠ 0)
+  | _ => true
+
+def allOk (o : Opt) (sh : Sh p) : FW p → List (Ev p) → Bool
+  | _, [] => true
+  | w, e :: es => okEv w e && allOk o sh (step o sh w e) es
+
+/-- the fault points after which the property holds (see Props/C12) -/
+def Fault.good : Fault → Bool
+  | .none => true
+  | .admin _ => true
+  | _ => false
+
+/-- faults of a history: in queue mode the reload runs in the queue worker, where it may fail -/
+def goodEv (o : Opt) : Ev p → Bool
+  | .upd f => f.good
+  | .qrun f => o.queue && (f.good || f.isReload)
+  | _ => true
+
+/-! ### the Spec: files = rendering of the in-memory model, HAProxy = the files -/
+
+def DiskGood (o : Opt) (sh : Sh p) (w : FW p) : Prop :=
+  (∀ k x, w.g.w.disk k x = itemsIn sh w.g.w.store k x) ∧
+  (∀ x, w.h.maps x = w.h.want x) ∧
+  w.mainHosts = hasHosts w.h ∧
+  (w.tcp.want ≠ 0 → w.tcp.map = w.tcp.want ∧ w.tcp.crt = w.tcp.want) ∧
+  w.tcp.main = w.tcp.want ∧
+  (∀ x c, w.g.w.store.items x = some c → o.needACL (conf c) = true → w.bm x = some (conf c))
+
+/-- `Running = load Disk`; a backend that was removed without a reload may still be loaded (no map
+or frontend refers to it any more) -/
+def RunGood (sh : Sh p) (w : FW p) : Prop :=
+  (∀ x c, (load sh w).back x = some c → w.run.back x = some c) ∧
+  (∀ x, w.run.maps x = (load sh w).maps x) ∧
+  (∀ x, w.run.bm x = (load sh w).bm x) ∧
+  w.run.tcpMap = w.tcp.map ∧ w.run.tcpCrt = w.tcp.crt ∧ w.run.tcpMain = w.tcp.main
+
 end HapVerif.C12
